@@ -834,6 +834,30 @@ pub fn reentrant_part(rep: &Report, who: &str) -> u64 {
     n
 }
 
+/// Settings copied with clone_from instead of clone / setters: the copy renders exactly what the source renders.
+fn clone_from_part(rep: &Report) {
+    let utts = utterances();
+    let mut n = 0u64;
+    for kind in [0usize, 1, 2, 4, 6] {
+        for acts in [vec![], vec![Act::HalfTone(4.0), Act::Volume(-6.0), Act::Speed(1.3)], vec![Act::Alpha(0.5), Act::Beta(0.0), Act::Msd(1, 0.3), Act::Gv(0, 0.5), Act::Fperiod(5), Act::Align(true)]] {
+            let e = with_cond(&engine_kind(kind), &acts);
+            for (ui, u) in utts.iter().enumerate() {
+                let Ok(want) = synth(&e, u) else { continue };
+                for whole in [false, true] {
+                    n += 1;
+                    rep.eval(1);
+                    rep.cmp(1);
+                    match catch(|| synth(&via_clone_from(&e, whole), u)) {
+                        Ok(Ok(w)) if bits_eq(&w, &want) => {}
+                        other => rep.violation("clone-from", format!("voice kind {} with {:?}, utterance {}: an engine filled through {}::clone_from (onto a scratch object with other values{}) renders differently from its source: {:?}", kind, acts, ui, if whole { "Engine" } else { "Condition" }, if whole { " and another voice" } else { "" }, other.map(|r| r.map(|x| x.len()))), json!({"part": "clone_from", "voice_kind": kind, "settings": acts_json(&acts), "utterance": u, "whole_engine": whole})),
+                    }
+                }
+            }
+        }
+    }
+    rep.note("clone_from_cases", json!(n));
+}
+
 fn proc_items() -> Vec<(usize, Option<Act>)> {
     let mut v: Vec<(usize, Option<Act>)> = [0usize, 1, 2, 3, 6].iter().map(|k| (*k, None)).collect();
     let mut acts = setter_alphabet(3);
@@ -1133,13 +1157,14 @@ fn setter_alphabet(ns: usize) -> Vec<Act> {
 pub fn run(tier: Tier) -> i32 {
     let rep: &'static Report = Box::leak(Box::new(Report::new("C03", tier, "model_checking")));
     let monitor = Arc::new(HangMonitor::start(rep, "C03 call history"));
-    rep.set_rule("HIST (stateright BFS, no state merging): all call histories to the depth bound over {synthesize(u) for 4 utterances (one of them time-stamped), clone+synthesize, open a generator (<= 2 live), step it, finish it, set/reset 7 condition setters incl. alignment and frame period} on one real engine, every output compared bit-exactly with a baseline computed by a fresh child process for (condition values, labels); SCHED: for each tuple of programs {synthesize(u1), synthesize(u2), generator(u1) stepped, clone().synthesize(u1)} on one shared engine (mel-cepstral and LSP voices with GV, postfilter and mixed excitation, one and two states per phoneme; an interpolated 2-voice set), every schedule with <= B preemptions at verif-hooks sites under a controlled scheduler (one agent runs at a time), outputs compared with solo baselines; all sequences of <= 2/3 setter calls followed by one canonical assignment vs a fresh engine; generators of every ordered pair of voice kinds stepped alternately on one thread vs their solo syntheses; process history (every ordered pair of voice kinds and (setter value, default) pairs, the second synthesis of a fresh child process vs the same synthesis alone in a fresh child process); every setter value called on a clone / on the original / after a generator started, with the other copy or the running generator observed; a synthesis on another engine nested inside the outer call through the caller's own types (AsRef<str> of a label line, ToLabels), 4 outer x 3 inner engines; compile-time Send/Sync/Clone assertion; non-trivial = history/schedule with at least two synthesis operations");
+    rep.set_rule("HIST (stateright BFS, no state merging): all call histories to the depth bound over {synthesize(u) for 4 utterances (one of them time-stamped), clone+synthesize, open a generator (<= 2 live), step it, finish it, set/reset 7 condition setters incl. alignment and frame period} on one real engine, every output compared bit-exactly with a baseline computed by a fresh child process for (condition values, labels); SCHED: for each tuple of programs {synthesize(u1), synthesize(u2), generator(u1) stepped, clone().synthesize(u1)} on one shared engine (mel-cepstral and LSP voices with GV, postfilter and mixed excitation, one and two states per phoneme; an interpolated 2-voice set), every schedule with <= B preemptions at verif-hooks sites under a controlled scheduler (one agent runs at a time), outputs compared with solo baselines; all sequences of <= 2/3 setter calls followed by one canonical assignment vs a fresh engine; generators of every ordered pair of voice kinds stepped alternately on one thread vs their solo syntheses; process history (every ordered pair of voice kinds and (setter value, default) pairs, the second synthesis of a fresh child process vs the same synthesis alone in a fresh child process); every setter value called on a clone / on the original / after a generator started, with the other copy or the running generator observed; engines filled through Condition::clone_from / Engine::clone_from onto scratch objects with other values (and another voice); a synthesis on another engine nested inside the outer call through the caller's own types (AsRef<str> of a label line, ToLabels), 4 outer x 3 inner engines; supplementary free-running rounds (sampling, labelled so): 8 real threads on one shared engine, and 8 threads with shared or different utterances of equal length and their own settings plus bursts of 2000 setter calls each; compile-time Send/Sync/Clone assertion; non-trivial = history/schedule with at least two synthesis operations");
     rep.assume("preemptions only at verif-hooks sites (fine: every site, impulse-response loop thinned to every 191st iteration; coarse: stage boundaries); at most 3 controlled threads and 2 preemptions; weak-memory effects are not modelled");
     static_part(rep);
     source_scan(rep);
     clone_part(rep);
     cross_engine_part(rep);
     reentrant_part(rep, "");
+    clone_from_part(rep);
     let utts = utterances();
     let mut total_sched = 0u64;
     let mut multi_trace = 0usize;
